@@ -286,6 +286,16 @@ def edge_texts():
             'duration("P" + string(i) + "M")', 'string(date and time("2021-03-27T00:00:00@Europe/Warsaw") + duration("PT" + string(i) + "H"))', 'date and time("2021-01-01T00:00:00Z") + duration("P" + string(i) + "D") > date and time("2021-03-01T00:00:00@America/New_York")',
             'decimal(i / 7, modulo(i, 12))', 'string(i / 7)', 'floor(i / 3) + ceiling(i / 3)', 'get value({a: i}, "a")', 'get entries({a: i})', '(function(p) p + 1)(i)', 'fa(i)', 'i instance of number', 'index of([1, i], i)',
             'day of week(date(2021, 1, modulo(i, 28) + 1))', 'week of year(date(2021, modulo(i, 12) + 1, 1))', 'years and months duration(date(2000, 1, 1), date(2000 + i, 1, 1))', 'string(time("10:00:00@Europe/Paris") + duration("PT" + string(i) + "M"))']
+    # UTC offsets written in time and date-and-time strings: every combination of sign, hours around the limits 14 / 24 / 99,
+    # minutes and optional seconds around 59 / 60; the value alone and in the operations that convert it to an instant
+    for sign in "+-":
+        for hh in ("00", "01", "13", "14", "15", "18", "23", "24", "25", "48", "59", "60", "99"):
+            for mm in ("00", "01", "30", "59", "60", "99"):
+                for ss in ("", ":00", ":59", ":60"):
+                    off = "%s%s:%s%s" % (sign, hh, mm, ss)
+                    t_, d_ = 'time("10:00:00%s")' % off, 'date and time("2021-01-01T10:00:00%s")' % off
+                    out.append("[%s, %s, @\"10:00:00%s\", @\"2021-01-01T10:00:00%s\"]" % (t_, d_, off, off))
+                    out.append("{t: %s, d: %s, r: [t = t, d = d, string(t), string(d), t.time offset, d.time offset, d - date and time(\"2021-01-01T00:00:00Z\"), t - time(\"00:00:00Z\"), d in [date and time(\"2020-01-01T00:00:00Z\")..date and time(\"2022-01-01T00:00:00Z\")], t < time(\"12:00:00Z\"), d + duration(\"PT1H\"), t + duration(\"PT1H\")]}.r" % (t_, d_))
     for t in many:
         for n in (70, 150, 300):
             out.append("for i in 1..%d return %s" % (n, t))
